@@ -455,6 +455,74 @@ def instantiate(rng, sym, modifier=False, bar=0.06):
 
 
 # =================================================================================================
+#  transient objects: categories that are built, used as rule inputs and dropped, many times in one process
+# =================================================================================================
+def fresh(rng, c, p_gen=0.0, p_other=0.0):
+    """a NEW object tree with the value of c (or, with p_gen/p_other > 0, a variation of it); categories outside the triple system are re-parsed"""
+    if ternary(c):
+        return vary(rng, c, p_gen, p_other)
+    return Category.parse(str(c))
+
+
+def partner_for(rng, carry):
+    """an (x, y, shape) pair of short-lived objects in which `carry` (a rule result of the step before) is one of the two inputs: as the
+    functor side of an application / composition, or as the argument of a new modifier (X/X, X\\X) or non-modifier functor"""
+    loose = (lambda c: fresh(rng, c, 0.15, 0.03)) if rng.random() < 0.3 else (lambda c: fresh(rng, c))      # noqa
+    sub = lambda: rand_sub(rng, rng.choice([0, 0, 1]))          # noqa
+    if is_fun(carry) and rng.random() < 0.6:
+        arg = loose(carry.right)
+        u = rng.random()
+        if carry.slash == '/':
+            if u < 0.5:
+                return carry, arg, 'result/arg'
+            if u < 0.75:
+                return carry, Functor(arg, '/', sub()), 'result/comp'
+            return carry, Functor(arg, '\\', sub()), 'result/xcomp'
+        if u < 0.6:
+            return arg, carry, 'arg\\result'
+        return Functor(arg, '\\', sub()), carry, 'comp\\result'
+    b = loose(carry)
+    a = fresh(rng, b) if rng.random() < 0.5 else rand_sub(rng, rng.choice([0, 1, 1, 2]))      # modifier / non-modifier
+    if rng.random() < 0.5:
+        return Functor(a, '/', b), carry, 'new/result'
+    return carry, Functor(a, '\\', b), 'result\\new'
+
+
+def transient_stream(sub_seed, n_steps, on_step):
+    """rule application on TRANSIENT category objects.  Every step builds its two inputs anew - parsed from the text of a pair of
+    seen_rules.ja (the pairs of the treebank's derivations: most of them combine), instantiated from a pattern pair (modifier and non-modifier
+    functors alternate), or built around a result of the step before (categories reachable by rule application used as inputs of the
+    next step, as a client re-deriving a derivation does) - applies the rules, hands everything to on_step(step, shape, x, y, out, problems) and
+    drops inputs and results; only one result is carried into the next step.  A result is a function of the two category VALUES: the same
+    oracle as for the long-lived inventories must accept every step, whatever objects lived (and died) before it.
+    All randomness comes from sub_seed, so that a replay can run the same sequence again."""
+    rng = random.Random(sub_seed)
+    listed = gen.model_file('seen_rules.ja.jsonnet')
+    carry = None
+    for step in range(n_steps):
+        u = rng.random()
+        if carry is not None and u < 0.5:
+            x, y, shape = partner_for(rng, carry)
+        elif u < 0.75:
+            a, b = rng.choice(listed)
+            x, y, shape = Category.parse(a), Category.parse(b), 'parsed'
+        else:
+            sym = rng.choice(PATTERNS)
+            mod = rng.random() < 0.5
+            x, y = instantiate(rng, sym, modifier=mod)
+            shape = f'instantiated:{"modifier" if mod else "non-modifier"}'
+        out = eval_pair(x, y)
+        probs = check_pair(x, y, out)
+        on_step(step, shape, x, y, out, probs)
+        carry = None
+        if out[0] == 'ok' and out[1] and rng.random() < 0.85:
+            carry = rng.choice(out[1]).cat
+            if gen.size(carry) > 12:
+                carry = None
+        del x, y, out, probs
+
+
+# =================================================================================================
 def run(ctx):
     rng = ctx.rng
     quick = ctx.quick
@@ -466,7 +534,7 @@ def run(ctx):
     nonmod = collections.Counter()
     state = {'reported': 0}
 
-    def record(x, y, out, probs, stream):
+    def record(x, y, out, probs, stream, extra=None, note=''):
         nt = out[0] == 'ok' and bool(out[1])
         ctx.case(('b', str(x), str(y)), nontrivial=nt)
         if out[0] == 'ok':
@@ -477,7 +545,7 @@ def run(ctx):
         else:
             ctx.count(f'binary:{stream}:err:{out[1]}')
         for kind, why in probs:
-            ctx.fail(kind, f'ja.apply_binary_rules({str(x)!r}, {str(y)!r}): {why}', {'x': str(x), 'y': str(y), 'stream': stream})
+            ctx.fail(kind, f'ja.apply_binary_rules({str(x)!r}, {str(y)!r}){note}: {why}', dict({'x': str(x), 'y': str(y), 'stream': stream}, **(extra or {})))
 
     def used_table(pool, cats, idx_pairs):
         """a table holding only the categories the given index pairs use; returns old index -> table position"""
@@ -651,6 +719,31 @@ def run(ctx):
     k0 = next((k for k, (o, _) in enumerate(res4) if o[0] == 'ok' and any(r.op_symbol in ('<B3', '>Bx2') for r in o[1])), None)
     if k0 is not None:
         ctx.sample({'binary_instantiated': (descr4[k0], gram_corr.sig(res4[k0][0]))})
+    # ---- 4b. transient objects: the same rules on categories that are built, used and dropped (parsed text, pattern instances, results of the step before) ----
+    sub_seed = rng.getrandbits(48)
+    n_tr = 8000 if quick else 80000
+    tpool, tcases, tdescr = Pool(), [], []
+    tstat = collections.Counter()
+    pick = random.Random(sub_seed + 1)
+
+    def on_step(step, shape, x, y, out, probs):
+        tstat['shape:' + shape] += 1
+        if out[0] == 'ok':
+            for r in out[1]:
+                tstat['results_passed_through' if (cat_same(r.cat, x) or cat_same(r.cat, y)) else 'results_rebuilt'] += 1
+        record(x, y, out, probs, 'transient', extra={'sub_seed': sub_seed, 'n_steps': n_tr, 'step': step, 'shape': shape},
+               note=f' on short-lived objects (step {step} of the transient stream, input shape {shape!r}; earlier steps built and dropped other categories)')
+        if len(tcases) < 450 and pick.random() < 400 / n_tr:
+            tcases.append(bin_case(tpool, tpool.cat(x), tpool.cat(y), out))          # serialised now: nothing of this step stays alive
+            tdescr.append((step, shape, str(x), str(y), gram_corr.sig(out)))
+    transient_stream(sub_seed, n_tr, on_step)
+    ctx.stats['transient_steps'] = n_tr
+    for k_, v_ in sorted(tstat.items()):
+        ctx.stats[f'transient:{k_}'] = v_
+    if not (tstat['results_passed_through'] and tstat['results_rebuilt']):
+        ctx.obligation('transient stream mixes modifier (input passed through) and non-modifier (result rebuilt) steps', False, str(dict(tstat)))
+    ctx.coq_cases('binary_transient', tpool.preamble(), tcases, chunk=300 if quick else 1500, describe=lambda i: tdescr[i])
+
     for s, n in sorted(fired.items()):
         ctx.stats[f'results:{s}'] = n
         ctx.stats[f'results_nonmodifier:{s}'] = nonmod[s]
@@ -748,6 +841,8 @@ def run(ctx):
              '(also through the seen-rule gate with small sets), enumerated categories of <= 3 atoms over S/NP x triples with 0-3 variable values '
              '(pairs drawn so that the argument has the skeleton the functor asks for), and random instances of each of the ten pattern pairs '
              '(modifier and non-modifier, outer slashes drawn independently), plus mixed-feature-system pairs for error agreement; '
+             'a sequence of steps on TRANSIENT objects (inputs parsed from the text of seen_rules.ja pairs, pattern instances, and partners built around a result '
+             'of the step before; everything is dropped after the step, modifier and non-modifier functors alternate), every step checked by the same oracle; '
              'unary: every left-hand side of unary_rules.ja, inventory categories without an entry, synthetic left-hand sides covering the six labels, '
              'keys whose result atom has a unary feature.  non-trivial = at least one rule fires / the category has an entry; distinct by input text',
         assumptions=['domain of the soundness theorems and of the oracle: well-formed categories all of whose atoms carry feature triples '
@@ -761,10 +856,27 @@ def run(ctx):
 def replay(data):
     """re-execute the failures of a replay file on the implementation"""
     bad = 0
+    reruns = {}
     for f in data.get('failures', []):
         d = f['data']
         print(f"[{f['kind']}] {f['desc']}")
-        if 'y' in d:
+        if d.get('stream') == 'transient':
+            # the answer depended on the objects that lived before: the whole sequence is run again from its own seed
+            key = (d['sub_seed'], d['n_steps'])
+            if key not in reruns:
+                found = []
+
+                def on_step(step, shape, x, y, out, probs):
+                    if probs and len(found) < 3:
+                        found.append((step, shape, str(x), str(y), gram_corr.sig(out), probs))
+                transient_stream(d['sub_seed'], d['n_steps'], on_step)
+                reruns[key] = found
+                print(f'   transient stream (seed {d["sub_seed"]}, {d["n_steps"]} steps) run again:', found if found else 'every step justified')
+                bad += bool(found)
+            x, y = Category.parse(d['x']), Category.parse(d['y'])
+            out = eval_pair(x, y)
+            print('   the pair alone, now:', gram_corr.sig(out), '->', check_pair(x, y, out) or 'justified')
+        elif 'y' in d:
             x, y = Category.parse(d['x']), Category.parse(d['y'])
             out = eval_pair(x, y)
             probs = check_pair(x, y, out)
